@@ -563,12 +563,15 @@ class BasicContiguousVector<cntgs::Options<Option...>, Parameter...>
         }
     }
 
+    // All fixed sizes are zero and there is no plain parameter: the number of elements cannot be told from the bytes.
+    constexpr bool has_zero_sized_elements() const noexcept { return !empty() && data_begin() == data_end(); }
+
     template <class... TOption>
     constexpr auto equal(const cntgs::BasicContiguousVector<cntgs::Options<TOption...>, Parameter...>& other) const
     {
         if constexpr (ListTraits::IS_EQUALITY_MEMCMPABLE && ElementTraits::IS_PADDING_FREE)
         {
-            if (!has_equal_fixed_sizes(other))
+            if (!has_equal_fixed_sizes(other) || has_zero_sized_elements())
             {
                 return std::equal(begin(), end(), other.begin(), other.end());
             }
@@ -594,7 +597,7 @@ class BasicContiguousVector<cntgs::Options<Option...>, Parameter...>
         if constexpr (ListTraits::IS_LEXICOGRAPHICAL_MEMCMPABLE && ListTraits::IS_FIXED_SIZE_OR_PLAIN &&
                       ElementTraits::IS_PADDING_FREE)
         {
-            if (!has_equal_fixed_sizes(other))
+            if (!has_equal_fixed_sizes(other) || has_zero_sized_elements())
             {
                 return std::lexicographical_compare(begin(), end(), other.begin(), other.end());
             }
